@@ -34,7 +34,7 @@ fn scripts(quick: bool) -> Vec<(Vec<(usize, Step)>, usize)> {
     let sync_write_unlink = vec![sync("v"), setv(&[7]), unlink("v")];
     let resync = vec![link("v"), sync("v"), cmd("v", "8"), sync("v")];
     let two_lanes = vec![link("w"), link("v"), cmd("w", "9"), cmd("v", "10")];
-    let burst = vec![link("v"), setv(&[11, 12, 13, 14])];
+    let burst = vec![link("v"), setv(&[11, 22222222, 3, 44444])];
     let late = vec![cmd("v", "20"), cmd("v", "21"), link("v")];
     let mut out: Vec<(Vec<(usize, Step)>, usize)> = vec![];
     // single remote
@@ -70,6 +70,8 @@ fn scripts(quick: bool) -> Vec<(Vec<(usize, Step)>, usize)> {
     out.push((sequential(&[vec![link("v"), cmd("v", "41"), cmd("v", "42"), link("v"), cmd("v", "43")]]), 1));
     out.push((sequential(&[vec![sync("v"), link("v"), cmd("v", "44"), link("v")]]), 1));
     out.push((vec![(0, link("v")), (1, link("v")), (1, cmd("v", "45")), (0, link("v")), (1, cmd("v", "46")), (0, sync("v"))], 2));
+    // values whose encodings differ in length
+    out.push((sequential(&[vec![link("v"), cmd("v", "1"), cmd("v", "22222222"), cmd("v", "3"), sync("v"), cmd("v", "44444")]]), 1));
     // three remotes: observer, syncer, writer
     out.push((sequential(&[observer.clone(), syncer.clone(), writer.clone()]), 3));
     out.push((sequential(&[writer.clone(), observer.clone(), syncer.clone()]), 3));
